@@ -42,6 +42,8 @@ def _failing(*a, **k):
     i = _CALLS['n']
     _CALLS['n'] += 1
     if _FAIL_AT['idx'] is not None and i == _FAIL_AT['idx']:
+        if _FAIL_AT.get('bare'):
+            raise _CLS['c']()                    # an exception without a message (a bare raise / assert)
         raise _CLS['c']('injected fault in optimisation task %d' % i)
     return real.admm_optimize_theta(*a, **k)
 
@@ -55,11 +57,46 @@ def _children():
     return [p for p in multiprocessing.active_children() if p.is_alive()]
 
 
+def _bounded(w, limit=75):
+    """Run the replay of one faulty call in a child interpreter with a time limit: a call that never
+    comes back is the violation 'hangs' (and must not take the replay down with it)."""
+    import json
+    import signal
+    import subprocess
+    import sys
+    import tempfile
+    with tempfile.NamedTemporaryFile('w', suffix='.json', delete=False) as fh:
+        json.dump(dict(w, _child=True), fh, default=str)
+        path = fh.name
+    code = ('import json,sys; from replay import c20; '
+            'print("CHILD-RESULT " + json.dumps(c20.replay(json.load(open(sys.argv[1])))))')
+    p = subprocess.Popen([sys.executable, '-c', code, path], stdout=subprocess.PIPE, stderr=subprocess.PIPE, text=True,
+                         start_new_session=True)
+    try:
+        out, _ = p.communicate(timeout=limit)
+    except subprocess.TimeoutExpired:
+        try:
+            os.killpg(p.pid, signal.SIGKILL)
+        except OSError:
+            pass
+        p.communicate()
+        os.unlink(path)
+        return {'reproduced': True, 'signature': 'call-hangs',
+                'observed': {'raised': None, 'note': 'the front-end call had not returned after %d s' % limit}}
+    os.unlink(path)
+    for line in reversed(out.splitlines()):
+        if line.startswith('CHILD-RESULT '):
+            return json.loads(line[len('CHILD-RESULT '):])
+    return {'reproduced': False, 'signature': None, 'observed': {'child_failed': out[-300:]}}
+
+
 def replay(w):
     import fast_ticc
     import fast_ticc.admm as admm
     nt = w.get('notes') or {}
     kind = nt.get('kind')
+    if kind == 'task' and nt.get('has_message') is False and not w.get('_child'):
+        return _bounded(w)
     gc.collect()
     gc.disable()
     try:
@@ -75,6 +112,7 @@ def replay(w):
             _CLS['c'] = _CLASSES.get(nt.get('fault_class', 'Exception'), Injected)
             _CALLS['n'] = 0
             _FAIL_AT['idx'] = (int(nt.get('round', 0)) * K + int(nt.get('cluster', 0))) if not env else 0
+            _FAIL_AT['bare'] = nt.get('has_message') is False
             before = len(_children())
             admm.admm_optimize_theta = _failing
             raised, res = None, None
